@@ -232,6 +232,58 @@ def targets(ctx):
         found = fresh_clauses(case["fresh"])
         return Eval([Failure(cl, f"fresh|{cl}|{case['fresh']}", d) for cl, d in found], nontrivial=True, labels=["fresh"])
 
+    # a message that was RECEIVED empty - through every decoding entry point - and is then embedded as a plain sub-message
+    from io import BytesIO
+
+    RECEIVE = {
+        "parse": lambda S: S().parse(b""),
+        "FromString": lambda S: S.FromString(b""),
+        "load": lambda S: S().load(BytesIO(b"")),
+        "load_size_0": lambda S: S().load(BytesIO(b"\x08\x01"), 0),
+        "load_delimited": lambda S: S().load(BytesIO(b"\x00\x08\x01"), betterproto.SIZE_DELIMITED),
+        "from_dict_instance": lambda S: S().from_dict({}),
+        "from_dict_class": lambda S: S.from_dict({}),
+        "from_json_instance": lambda S: S().from_json("{}"),
+        "from_dict_instance_unknown_key_only": lambda S: S().from_dict({"noSuchField": 1}),
+        "from_pydict_instance": lambda S: S().from_pydict({}),
+    }
+    HOSTS = [("Scalars", "f_leaf", "Leaf"), ("Scalars", "f_empty", "Empty"), ("Scalars", "f_rec", "Rec"), ("Rec", "rec", "Rec"), ("Mixed", "scalars", "Scalars"), ("Mixed", "oneofs", "Oneofs")]
+
+    @collecting
+    def received_clauses(out, way, host, field, sub, how):
+        S, H = c.bp(sub), c.bp(host)
+        mi = schema.msg(f"ks.{host}")
+        fi = mi.by_name(field)
+        got = guard("receive", RECEIVE[way], S)
+        if not betterproto.serialized_on_wire(got):
+            out.append(("received_empty_not_reported_by_serialized_on_wire", f"{sub} via {way}"))
+        if how == "kwargs":
+            m = guard("construct", lambda: H(**{field: got}))
+        else:
+            m = H()
+            guard("setattr", setattr, m, field, got)
+        b = guard("bytes", bytes, m)
+        if not has_record(b, fi.number):
+            out.append(("received_empty_submessage_not_emitted", f"{host}.{field} = {sub} via {way}: bytes={b.hex()}"))
+        elif not c.rf(host).FromString(b).HasField(field):
+            out.append(("received_empty_submessage_not_seen_by_reference", f"bytes={b.hex()}"))
+        if guard("len", len, m) != len(b):
+            out.append(("received_empty_len_vs_bytes", f"len={len(m)} bytes={len(b)}"))
+        m2 = guard("parse", H().parse, b)
+        sub2 = getattr(m2, BPInfo.of(H).pyname(fi))
+        if not betterproto.serialized_on_wire(sub2):
+            out.append(("received_empty_lost_on_round_trip", f"bytes={b.hex()}"))
+
+    def received_cases():
+        for way in RECEIVE:
+            for host, field, sub in HOSTS:
+                for how in ("kwargs", "setattr"):
+                    yield {"received": way, "host": host, "field": field, "sub": sub, "how": how}
+
+    def received_ev(case):
+        found = received_clauses(case["received"], case["host"], case["field"], case["sub"], case["how"])
+        return Eval([Failure(cl, f"received|{cl}|{case['received']}|{case['sub']}", d) for cl, d in found], nontrivial=True, labels=["received:" + case["received"]])
+
     # nested lazy assignment: values written through lazily created sub-messages
     LAZY = {
         # name: (top message, how to mutate, expected tree as the reference must see it, field number of the sub-message)
@@ -403,6 +455,8 @@ def targets(ctx):
     return [
         Target("fresh_messages", fresh_ev, cases=fresh_cases, exhaustive=True, shard_cases=False),
         Target("presence_matrix", cell_ev, cases=cells, exhaustive=True, rule="every corpus field x 3 states x 4 routes"),
+        Target("received_empty_then_embedded", received_ev, cases=received_cases, exhaustive=True, shard_cases=False,
+               rule="every decoding entry point (parse, FromString, load, load(size=0), load(SIZE_DELIMITED), from_dict in both forms, from_json, from_pydict) x 6 host fields x {constructor, setattr}"),
         Target("lazy_nested_assignment", lazy_ev, cases=lazy_cases, exhaustive=True, shard_cases=False),
         Target("combinations_from_reference_bytes", combo_ev, strategy=combo, quick=400, thorough=6000),
         Target("emitted_records_vs_held_fields", emit_ev, strategy=emit_strat(), quick=400, thorough=6000),
